@@ -1,5 +1,5 @@
 """C16 -- no in-contract input makes the engine read or write outside its arrays (structural clauses)."""
-from ..rules import shaving, bounds, capacity, dispatch, scratch, search, kinds
+from ..rules import model, shaving, bounds, capacity, dispatch, scratch, search, kinds
 
 EXPLANATION = (
     "Static analysis: (1) 27 computed-index accesses of the simple propagators and queue primitives (clamped element indices, range/enumerate loops over views, scc) are proved within their extent from path facts by Fourier-Motzkin; losing one of these proofs is a violation; 18 value-dependent sites are listed as undecided with a reason. (2) R-SCRATCH, assume/guarantee over the Hall-interval propagators (alldifferent, gcc): the caller is interpreted without inlining, every helper is then interpreted under exactly the array shapes the caller allocates (2n+2, (n,2), (2,m+6), argsort results = permutations of 0..n-1) and the contract 0 <= nb <= 2n of update_bounds, itself established by inductive invariants (nb <= i+j, i <= n, j <= n-1); every subscript whose index is a shape quantity (loop indices, counters, scalar parameters, permutation elements) must be provably inside its array (about 120 sites); subscripts indexed by pointer-array contents (t[z], h[x], sets[...], ranks[...] values) are listed as undecided. (3) Allocation-shape agreement of the three stacks, queue and flags; the stack height fits the 8-bit level pointer; value heuristics (max net push derived = 2) and the shaving probe are guarded by top + P < len(stack). R-EXTENT and R-SCRATCH keep no table of source texts: an index made of loop indices, counters, lengths and permutation elements is a shape index and must be proved; sentinel-initialised selections, counters of data-driven loops and indices bounded by another parameter array's length are classified structurally as undecided. Round 3: a cell clamped to a list's index range is not used as an index of that list before the clamp; example kernels: a value-driven index tested against the size of its array must be proved below it; index kinds. Round 6: the bound selector of shaving stays in the extent of the bound axis; a scalar parameter that a caller starts from a negative sentinel does not index an array on a path that does not exclude it; an index applied to a slice of a cost table is resolved to its absolute column and held to the scanned range."
@@ -20,3 +20,5 @@ def check(ctx, prog):
     dispatch.rule_mode_arith(ctx, prog)  # scope: the capacity guards hold in both execution modes
     shaving.rule_shaving_loop(ctx, prog)  # scope: the bound selector handed to shave_bound stays MIN / MAX (it indexes an axis of extent 2)
     kinds.rule_index_kind(ctx, prog)  # a number is a variable index or a shared-domain index, not both
+    kinds.rule_count_kind(ctx, prog)  # ... and a count of variables is not a count of shared domains (positions appended to the variable -> domain table)
+    model.rule_init_coherence(ctx, prog)  # scope: the wake-up table has one row per shared domain (clause triggers-extent only)
